@@ -4,7 +4,7 @@ import codecs
 import csv
 import itertools
 
-from cutplace import data, errors, ranges
+from cutplace import data, errors, interface, ranges
 
 from common import B, L, O, P, S, Zn
 
@@ -172,6 +172,16 @@ def make_case(inp):
             obs, coq = {"interface": str(e)[:100]}, "OInterface"
         except Exception as e:  # noqa
             obs, coq = {"leak": type(e).__name__}, "OLeak"
+        # the same property as a CID says it: a data format row read by the CID loader
+        try:
+            cid = interface.Cid()
+            cid.read("c11", [["D", "Format", fmt], ["D", name, value], ["F", "a", "", "", "3" if fmt == "fixed" else ""]])
+            obs["via_cid"] = {"attr": canon_attr(cid.data_format.__dict__["_" + name.replace(" ", "_")])}
+        except errors.InterfaceError as e:
+            # refused at the property row, or - no row named - as a contradiction when the CID was completed
+            obs["via_cid"] = {"interface": True} if "(R2C" in str(e) else {"completion": True}
+        except Exception as e:  # noqa
+            obs["via_cid"] = {"leak": type(e).__name__}
         return {"coq": P("(SetCase %s %s %s %s)" % (S(fmt), S(name), S(value), B(known)), coq), "obs": obs, "nontrivial": value != "",
                 "tags": ["set", name, "ok" if "attr" in obs else ("refused" if "interface" in obs else "leak")]}
     if kind == "validate":
@@ -217,6 +227,13 @@ def direct_oracle(inp, obs):
     if "leak" in obs:
         return "non-cutplace exception %s" % obs["leak"]
     if inp["kind"] == "set":
+        via = obs.get("via_cid", {})
+        if "leak" in via:
+            return "the CID loader raised %s for this data format row" % via["leak"]
+        if "attr" in via and ("attr" not in obs or obs["attr"] != via["attr"]) and inp["name"].strip() == inp["name"]:
+            return "read from a CID row the property is %r, set directly it is %r" % (via["attr"], obs.get("attr", "refused"))
+        if "interface" in via and "attr" in obs and inp["name"].strip() == inp["name"]:
+            return "the CID loader refuses the value that DataFormat.set_property accepts as %r" % (obs["attr"],)
         name = inp["name"].replace(" ", "_")
         if name not in DOC_APPLIES[inp["format"]] and "attr" in obs:
             return "property %r does not apply to format %s but was accepted" % (inp["name"], inp["format"])
